@@ -244,6 +244,10 @@ def Tensor.align (t : Tensor α) (names : List String) : Except Err (Tensor α) 
 
 /-! ### align_tensor / align_tensors -/
 
+/-- `old_inputs[k].dtype if k in old_inputs else 1` -/
+def sizeOr1 (d : Inputs) (p : String × Nat) : Nat :=
+  match lookup p.1 d with | some s => s | none => 1
+
 def alignTensor (newInputs : Inputs) (x : Tensor α) (expand : Bool) : Except Err (Arr α) :=
   if x.inputs = newInputs then .ok x.data else
   let perm := (newInputs.filter fun p => p.1 ∈ x.keys).map (fun p => pos p.1 x.keys)
@@ -251,8 +255,7 @@ def alignTensor (newInputs : Inputs) (x : Tensor α) (expand : Bool) : Except Er
   match permute x.data perm with
   | .error e => .error e
   | .ok data =>
-  let shape1 := newInputs.map (fun p => match lookup p.1 x.inputs with | some s => s | none => 1)
-    ++ x.outShape
+  let shape1 := newInputs.map (sizeOr1 x.inputs) ++ x.outShape
   match reshape data shape1 with
   | .error e => .error e
   | .ok data =>
